@@ -40,7 +40,7 @@ class C04(FprCheck):
                 # many conformers of ONE molecule object on one fingerprinter: conformers converge at different
                 # iterations, so conformer-scoped state left over from an earlier run would be visible
                 pool = [dict(rng.choice(refs), scales=[1.0, 0.55, 1.6, 2.4, 0.8])]
-                o["level"] = rng.choice([5, 8, -1])
+                o["level"] = rng.choice([2, 3, 4, 5, 8, -1])      # also levels between the levels at which the conformers converge
                 if o["level"] == -1:
                     o["remove_duplicate_substructs"] = True
             elif rng.random() < 0.2:
@@ -108,6 +108,12 @@ class C04(FprCheck):
             yield {"t": "process-order", "mols": mols, "opts": o, "orders": [list(range(4)), order2]}
         for _ in range(1 if self.tier == "quick" else 4):
             yield {"t": "entry-threads", "sample": rng.randrange(10 ** 6), "n": 10 if self.tier == "quick" else 40}
+        for _ in range(4 if self.tier == "quick" else 60):
+            # a *chosen* interleaving of two threads: the first thread is pre-empted at seeded entries into the fingerprinting code
+            # (a trace hook used purely as a scheduling point) and the second thread fingerprints another molecule to completion
+            # each time - every such schedule is one the interpreter may produce by itself
+            self.count("threads-preempted-at-chosen-points")
+            yield {"t": "preempt", "sample": rng.randrange(10 ** 6), "points": 40 if self.tier == "quick" else 120}
         if self.tier == "thorough":
             for hs in ("0", "1", "12345"):
                 yield {"t": "hashseed", "seed": hs, "sample": rng.randrange(10 ** 6)}
@@ -336,6 +342,21 @@ class C04(FprCheck):
                 bad = [k for k in outs[0] if outs[0][k] != outs[1].get(k)]
                 return {"key": "process-history-dependent", "what": "fingerprinting %s in a fresh process gives different answers in the orders %s" % (bad[:2], case["orders"])}
             return None
+        if case["t"] == "preempt":
+            if sys.gettrace() is not None:
+                return None       # a tracer (coverage measurement) is already installed
+            jobs = [j for j in sample_jobs(case["sample"], 8) if MG.in_domain(MG.load_ref(j[0]), j[2])]
+            if len(jobs) < 2:
+                return None
+            ja, jb = jobs[0], jobs[1]
+            want = job_result(ja)
+            job_result(jb)
+            got, hits = preempted(ja, jb, case["points"], case["sample"])
+            if got != want:
+                return {"key": "concurrency-dependent:threads:chosen-schedule",
+                        "what": "a fingerprinting thread pre-empted at %d entries into the fingerprinting code, while another thread fingerprinted "
+                                "another molecule, returns another result than an undisturbed run" % hits}
+            return None
         if case["t"] == "entry-threads":
             from concurrent.futures import ThreadPoolExecutor
             jobs = sample_jobs(case["sample"], case["n"])
@@ -407,6 +428,67 @@ def sample_jobs(seed, n):
     rng = random.Random(seed)
     refs = MG.all_refs()
     return [(rng.choice(refs), rng.randrange(2), MG.gen_opts(rng)) for _ in range(n)]
+
+
+def preempted(job_a, job_b, npoints, seed):
+    """job_a in this thread, pre-empted at `npoints` seeded entries into e3fp's fingerprinting modules; at each of them another
+    thread runs job_b to completion.  Returns (result of job_a, number of pre-emptions)."""
+    import random
+    import threading
+    mods = ("fprinter.py", "array_ops.py", "structs.py")
+    # dry run: count the entries
+    n = [0]
+    byname = {}
+
+    def counter(frame, event, arg):
+        if event == "call" and frame.f_code.co_filename.endswith(mods):
+            byname.setdefault(frame.f_code.co_name, []).append(n[0])
+            n[0] += 1
+        return None
+    sys.settrace(counter)
+    try:
+        job_result(job_a)
+    finally:
+        sys.settrace(None)
+    rr = random.Random(seed)
+    # stratified by function: every function of the fingerprinting code is pre-empted at (up to) two of its entries, plus a
+    # uniform sample - a window that is open only around one particular call is hit whatever that call is
+    chosen = set(rr.sample(range(n[0]), min(npoints // 4, n[0]))) if n[0] else set()
+    for name in sorted(byname):
+        chosen.update(rr.sample(byname[name], min(2, len(byname[name]))))
+    go, done, stop = threading.Event(), threading.Event(), [False]
+
+    def other():
+        while True:
+            go.wait()
+            go.clear()
+            if stop[0]:
+                return
+            try:
+                job_result(job_b)
+            finally:
+                done.set()
+    t = threading.Thread(target=other, daemon=True)
+    t.start()
+    k, hits = [0], [0]
+
+    def tracer(frame, event, arg):
+        if event == "call" and frame.f_code.co_filename.endswith(mods):
+            if k[0] in chosen:
+                hits[0] += 1
+                go.set()
+                done.wait()
+                done.clear()
+            k[0] += 1
+        return None
+    sys.settrace(tracer)
+    try:
+        res = job_result(job_a)
+    finally:
+        sys.settrace(None)
+        stop[0] = True
+        go.set()
+    return res, hits[0]
 
 
 def entry_result(job):
